@@ -5,6 +5,7 @@ package props
 import (
 	"fmt"
 	"image"
+	"image/color"
 	"testing"
 
 	"github.com/boombuler/barcode"
@@ -12,11 +13,15 @@ import (
 	"verif/ref"
 )
 
+// the documented kind names, as literals (not the library's constants: a changed constant must be noticed)
 var famKinds = map[string]string{
-	"qr": barcode.TypeQR, "datamatrix": barcode.TypeDataMatrix, "aztec": barcode.TypeAztec, "pdf417": barcode.TypePDF,
-	"code128": barcode.TypeCode128, "code128nc": barcode.TypeCode128, "code39": barcode.TypeCode39, "code93": barcode.TypeCode93,
-	"codabar": barcode.TypeCodabar, "2of5": barcode.Type2of5, "itf": barcode.Type2of5Interleaved,
+	"qr": "QR Code", "datamatrix": "DataMatrix", "aztec": "Aztec", "pdf417": "PDF417",
+	"code128": "Code 128", "code128nc": "Code 128", "code39": "Code 39", "code93": "Code 93",
+	"codabar": "Codabar", "2of5": "2 of 5", "itf": "2 of 5 (interleaved)",
 }
+
+// black on white in the 16-bit gray model, as literals: what the plain Encode functions must render
+var plainScheme = barcode.ColorScheme{Model: color.Gray16Model, Background: color.White, Foreground: color.Black}
 
 // pattern reads the boolean module pattern of bc under the given scheme, insisting that every
 // pixel is exactly the scheme's foreground or background.
@@ -87,9 +92,9 @@ func checkRender(t TB, c EncSpec, bc barcode.Barcode, cs barcode.ColorScheme, wh
 		wantDim = 2
 	}
 	if c.Fam == "ean" {
-		wantKind = barcode.TypeEAN8
+		wantKind = "EAN 8"
 		if len(bc.Content()) == 13 {
-			wantKind = barcode.TypeEAN13
+			wantKind = "EAN 13"
 		}
 	}
 	if md.CodeKind != wantKind || md.Dimensions != wantDim {
@@ -221,7 +226,7 @@ func checkC11(t TB, c EncSpec) string {
 	if perr != nil || nilBarcode(pbc) {
 		return ""
 	}
-	ppat := checkRender(t, c, pbc, barcode.ColorScheme16, "plain")
+	ppat := checkRender(t, c, pbc, plainScheme, "plain")
 	cls := checkSize(t, c, ppat)
 	if c.Scheme != nil {
 		cs := c.Scheme.Scheme()
